@@ -307,7 +307,7 @@ class Translator:
                 return r[1]
             if e.id in ("True", "False", "None"):
                 return {"True": True, "False": False, "None": None}[e.id]
-            if e.id in ("float", "int", "str", "bool", "list", "tuple", "dict", "len", "abs", "max", "min", "sum", "range"):
+            if e.id in ("float", "int", "str", "bool", "list", "tuple", "dict", "len", "abs", "max", "min", "sum", "range", "zip", "enumerate", "reversed", "sorted"):
                 return ("builtin", e.id)
             d = self.resolve_dotted(e, env)
             if d in CONSTANTS:
@@ -421,9 +421,39 @@ class Translator:
                 else:
                     return "<str>"
             return "".join(parts)
+        if isinstance(e, (ast.ListComp, ast.GeneratorExp, ast.SetComp)):
+            # comprehension over concrete (finite, literal-shaped) sequences: unrolled
+            out = []
+
+            def rec(gens, env_):
+                if not gens:
+                    out.append(self.expr(e.elt, env_, ctx))
+                    return
+                g = gens[0]
+                seq = self.expr(g.iter, env_, ctx)
+                if not isinstance(seq, (tuple, list)):
+                    self.err(e, f"comprehension over a non-literal sequence {ast.unparse(g.iter)}")
+                for item in seq:
+                    e2 = dict(env_)
+                    self.assign(g.target, item, e2, ctx)
+                    conds = [self.expr(c, e2, ctx) for c in g.ifs]
+                    if any(not isinstance(c, bool) for c in conds):
+                        self.err(e, "comprehension filter on a symbolic condition")
+                    if all(conds):
+                        rec(gens[1:], e2)
+            rec(list(e.generators), env)
+            return tuple(out)
         if isinstance(e, ast.Call):
             return self.call(e, env, ctx)
         self.err(e, f"expression {type(e).__name__} outside the algebraic fragment")
+
+    def apply_operator(self, fn, a, b, node):
+        """operator.add / mul / sub / truediv / pow handed around as a function value"""
+        name = fn[1].rpartition(".")[2] if isinstance(fn, tuple) and fn[0] == "ext" else None
+        ops = {"add": ast.Add(), "mul": ast.Mult(), "sub": ast.Sub(), "truediv": ast.Div(), "pow": ast.Pow()}
+        if name in ops:
+            return self.binop(ops[name], a, b, node)
+        self.err(node, f"function value {fn!r} outside the algebraic fragment")
 
     def const(self, dotted):
         nm = CONSTANTS[dotted]
@@ -493,6 +523,24 @@ class Translator:
                 if isinstance(base, sp.Basic) and attr in NUMPY_FUNCS:
                     return NUMPY_FUNCS[attr](base, *args)
                 self.err(e, f"method .{attr}() outside the algebraic fragment")
+        if isinstance(f, ast.Name) and f.id in ("zip", "enumerate", "list", "tuple", "reversed", "sorted") and args and all(isinstance(a, (tuple, list)) for a in args):
+            if f.id == "zip":
+                return tuple(zip(*args))
+            if f.id == "enumerate":
+                return tuple((sp.Integer(i), x) for i, x in enumerate(args[0]))
+            if f.id == "reversed":
+                return tuple(reversed(args[0]))
+            if f.id in ("list", "tuple"):
+                return tuple(args[0])
+        if isinstance(f, ast.Name) and f.id == "range" and args and all(isinstance(a, sp.Basic) and a.is_Integer for a in args):
+            return tuple(sp.Integer(i) for i in range(*[int(a) for a in args]))
+        if isinstance(f, ast.Name) and f.id == "sum" and args and isinstance(args[0], (tuple, list)) and not isinstance(args[0], ArraySym):
+            tot = args[1] if len(args) > 1 else sp.Integer(0)
+            for x in args[0]:
+                tot = tot + x
+            return tot
+        if isinstance(f, ast.Name) and f.id == "len" and args and isinstance(args[0], (tuple, list, dict)):
+            return sp.Integer(len(args[0]))
         if isinstance(f, ast.Name) and f.id in ("float", "int", "abs", "max", "min", "len", "sum", "range"):
             if f.id in ("float", "int"):
                 return args[0]
@@ -510,6 +558,24 @@ class Translator:
 
     def ext_call(self, dotted, args, kwargs, e, env, ctx):
         mod, _, name = dotted.rpartition(".")
+        if dotted == "functools.reduce" and len(args) >= 2 and isinstance(args[1], (tuple, list)):
+            fn, seq = args[0], list(args[1])
+            acc = args[2] if len(args) > 2 else (seq.pop(0) if seq else self.err(e, "reduce() of an empty sequence"))
+            for x in seq:
+                acc = fn(acc, x) if isinstance(fn, Closure) else self.apply_operator(fn, acc, x, e)
+            return acc
+        if mod == "operator":
+            return self.apply_operator(("ext", dotted), *args, e)
+        if dotted in ("math.fsum", "numpy.sum") and args and isinstance(args[0], (tuple, list)) and not (args[0] and args[0][0] == "mask"):
+            tot = sp.Integer(0)
+            for x in args[0]:
+                tot = tot + x
+            return tot
+        if dotted in ("math.prod", "numpy.prod") and args and isinstance(args[0], (tuple, list)):
+            tot = sp.Integer(1)
+            for x in args[0]:
+                tot = tot * x
+            return tot
         if mod in ("numpy", "math") and name in NUMPY_FUNCS:
             return NUMPY_FUNCS[name](*args)
         if mod == "scipy.special" and name in SPECIAL:
